@@ -326,7 +326,29 @@ ADDED7 = {
   'C19': "Seventh batch: is_edge_port evaluated on a sample adjacency; shares C17's rules about the port view and C09's about disconnect / registry.",
   'C20': "Seventh batch: str(connection) totality on the error paths; the global `sending` flag is cleared only under the empty-map test; shares C09's rules about the disconnect state machine.",
 }
-for _d in (ADDED, ADDED56, ADDED7):
+# eighth batch (DESIGN 9.21/9.22): value-level / failure-path / second-use changes; representation changes and renamed private members
+ADDED8 = {
+  'C01': "Eighth batch: shares C02's rule that every call of the decoder-table builder returns a new list.",
+  'C02': "Eighth batch: advance counts are recounted path-sensitively (flags of an inlined helper) and no handler path advances twice; the wire length is read with an unsigned 16-bit code; the switch-side receive buffer may be a property over a bytearray (rules follow the attribute, evaluation handles del of a slice).",
+  'C03': "Eighth batch: a lookup memo keyed by a hash of the header fields is refused; shares C04's rules about the ADD path (a refused flow-mod changes nothing).",
+  'C04': "Eighth batch: the switch subscribes to its table once, where the table is created; expiry classification by a helper is decided by the sample sweep.",
+  'C05': "Eighth batch: the suppressing handler is total (bare / BaseException); setting event.halt and every removeListener identifier form decided by evaluation (lambdas supported).",
+  'C06': "Eighth batch: the default wait replaces the select timeout only when no waiter has a deadline; the epoll apply stage evaluated on sample masks; hand-over buffer as Queue or deque; done-flags decide use-before-assignment.",
+  'C07': "Eighth batch: the per-callback handler of the call-later task is total (bare / BaseException).",
+  'C08': "Eighth batch: reporting a failed callback is contained; a component's presence is tested with `is None`; the caller's set of names is copied before it is added to; the names a waiter waits for evaluated on samples incl. the empty ones (guards fix 027f8d0).",
+  'C09': "Eighth batch: buffering of early port status decided by evaluation for list and tuple representations.",
+  'C10': "Eighth batch: an error handler that asks to carry on does not stop the switch's read loop; the protocol version is examined per message at the cursor.",
+  'C11': "Eighth batch: a learning switch re-attached to a new connection also sends over it.",
+  'C12': "Eighth batch: shares C14's rules about the UDP/TCP checksum routines.",
+  'C13': "Eighth batch: a failing decode in the switch's read loop is contained and refused with an error (guards fix 04e5098); remembered query results are reset by every writer (R-CACHE).",
+  'C14': "Eighth batch: sample round trip hdr() -> parse() by evaluation (vxlan VNI incl. 0 and None); shares C15's rules about the TCP decoders.",
+  'C15': "Eighth batch: a mutable default argument is not kept as instance state that is changed in place (E18).",
+  'C17': "Eighth batch: remembered values of the port view are reset by every writer of what they were computed from (R-CACHE); 'nothing pending' may be [] or None; raises through plain helper functions are followed.",
+  'C18': "Eighth batch: the pool is driven through a history by evaluation of its own two operations from the constructor's state (pools of two and three), independent of its representation; the list-form rules apply to the list form only.",
+  'C19': "Eighth batch: a failed port-mod is not remembered as sent; the bidirectional test may be recorded in a local first.",
+  'C20': "Eighth batch: the would-block path of send_fast queues the data (by evaluation through the handler); _sliceup evaluated on sample lengths incl. exact multiples of the piece size.",
+}
+for _d in (ADDED, ADDED56, ADDED7, ADDED8):
   for _k, _v in _d.items():
     if _k in P: P[_k]['text'] = P[_k]['text'] + " " + _v
 
